@@ -289,6 +289,55 @@ pub fn run(ctx: &Ctx, out: &mut Out) {
             }
             judge(out, &cfg, &mut d, cases);
         }
+        // fields under tags no protocol version knows, placed so that they sort right in front of
+        // VER, SRV or NONC and carrying exactly the value that tag would need: the version list is
+        // what VER holds, the commitment is what SRV holds, whatever else the datagram carries
+        {
+            use crate::refimpl::codec::*;
+            let unk = |s: &[u8; 4]| u32::from_le_bytes(*s);
+            let mut cases = Vec::new();
+            for k in 0..12 {
+                let mut m = RefMsg::new();
+                let (vers, srv, mode): (Vec<u32>, Option<Vec<u8>>, &'static str) = match k % 4 {
+                    0 => {
+                        // unknown tag (sorting first) = draft-13, VER = unknown numbers
+                        m.set(unk(b"AAA\0"), &DRAFT13.to_le_bytes());
+                        let v: Vec<u32> = (0..(1 + k / 4 * 3)).map(|i| 0x9000_0000 + i as u32).collect();
+                        (v, None, "absent")
+                    }
+                    1 => {
+                        // VER = draft-13, unknown tag between VER and SRV = this server's value, SRV = another's
+                        m.set(unk(b"AAS\0"), &my_srv);
+                        (vec![DRAFT13], Some(other_srv.clone()), "wrong")
+                    }
+                    2 => {
+                        // both at once
+                        m.set(unk(b"AAA\0"), &DRAFT13.to_le_bytes());
+                        m.set(unk(b"AAS\0"), &my_srv);
+                        (vec![1, 2], Some(other_srv.clone()), "wrong")
+                    }
+                    _ => {
+                        // unknown tag after VER carrying draft-13, VER itself empty
+                        m.set(unk(b"AAS\0"), &DRAFT13.to_le_bytes());
+                        (vec![], None, "absent")
+                    }
+                };
+                let vb: Vec<u8> = vers.iter().flat_map(|v| v.to_le_bytes()).collect();
+                m.set(VER, &vb);
+                if let Some(s) = &srv {
+                    m.set(SRV, s);
+                }
+                m.set(NONC, &rng.bytes(32));
+                m.set(ZZZZ, &[]);
+                let base = 12 + m.encode().len();
+                m.set(ZZZZ, &vec![0u8; 1024 - base]);
+                let data = m.encode_framed();
+                out.case(crate::prng::fnv64(&data), true);
+                out.obs("unknown_tag_carrier_cases", 1);
+                cases.push(Case { vers, srv, srv_mode: mode, data });
+            }
+            judge(out, &cfg, &mut d, cases);
+        }
         // near misses of the draft-13 number (single lists and pairs): none of them names it
         {
             let near: [u32; 12] = [0x0000_000c, 0x8000_010c, 0x0c00_0080, 0x8000_00c0, 0x8000_000c ^ 1, 0x8000_000c ^ 0x4000_0000, 0x0000_800c, 0xc000_000c, 0x8000_000c - 1, 0x8000_000c + 1, 0x7fff_ffff, 0x8000_0000];
